@@ -210,7 +210,7 @@ func checkRequiredAppends(p *core.Program, r *core.Report, m *builderModel) {
 		}
 	}
 	for _, ref := range core.Referrers(m.recv) {
-		if fa, ok := ref.(*ssa.FieldAddr); ok && core.FieldName(fa) == "requiredSets" {
+		if fa, ok := ref.(*ssa.FieldAddr); ok && core.FieldName(fa) == requiredSetsField(p) {
 			for _, rr := range core.Referrers(fa) {
 				if st, ok := rr.(*ssa.Store); ok && st.Addr == ssa.Value(fa) {
 					walk(st.Val, 0)
@@ -224,7 +224,7 @@ func checkRequiredAppends(p *core.Program, r *core.Report, m *builderModel) {
 			continue
 		}
 		// append(acc, lit{*newReqSet(x, name)}) where acc is the required-sets field or a local accumulator stored into it
-		if !recvFieldLoad(cv.Call.Args[0], m.recv, "requiredSets") && !inChain[ssa.Value(cv)] {
+		if !recvFieldLoad(cv.Call.Args[0], m.recv, requiredSetsField(p)) && !inChain[ssa.Value(cv)] {
 			continue
 		}
 		var src ssa.Value
@@ -250,7 +250,7 @@ func checkRequiredAppends(p *core.Program, r *core.Report, m *builderModel) {
 		stored := inChain[ssa.Value(cv)]
 		for _, ref := range core.Referrers(cv) {
 			if st, ok := ref.(*ssa.Store); ok {
-				if fa, ok := st.Addr.(*ssa.FieldAddr); ok && fa.X == ssa.Value(m.recv) && core.FieldName(fa) == "requiredSets" {
+				if fa, ok := st.Addr.(*ssa.FieldAddr); ok && fa.X == ssa.Value(m.recv) && core.FieldName(fa) == requiredSetsField(p) {
 					stored = true
 				}
 			}
